@@ -24,6 +24,7 @@ const modPath = "github.com/openacid/low"
 type World struct {
 	Prog       *ssa.Program
 	Trusted    map[string]bool // functions whose contract is trusted (body not verified)
+	concreteInterp map[string]*Term // concrete replay: values of uninterpreted spec functions
 	Fset       *token.FileSet
 	Pkgs       map[string]*ssa.Package
 	PPkgs      map[string]*packages.Package
